@@ -4,7 +4,7 @@ an expression as a function of the variables (for functions verified pure),
 sequence membership and prefix sums with one-step unfolding."""
 import z3
 
-from .model import Val, Ptr
+from .model import forall, add0, Val, Ptr
 
 
 class SFError(Exception):
@@ -28,7 +28,7 @@ def sf_contains(sev, env, args):
     arr, off, ln = s.leaves
     i = z3.Int('i!sc')
     xt = sev.term(x)
-    return z3.Exists([i], z3.And(0 <= i, i < ln, z3.Select(content, off + i) == xt))
+    return z3.Exists([i], z3.And(0 <= i, i < ln, z3.Select(content, add0(off, i)) == xt))
 
 
 # ----------------------------------------------------------------------------- well-formed ASTs
@@ -82,11 +82,11 @@ def wf_term(sev, env, v, depth=0, unfold=True):
         E = m.elem(v.t)
         arr, off, ln = v.leaves
         i = z3.Int('i!wf%d' % depth)
-        ev = ex.load(env.st, Ptr('elem', E, '', arr, off + i))
+        ev = ex.load(env.st, Ptr('elem', E, '', arr, add0(off, i)))
         body = wf_term(sev, env, ev, depth + 1, False)
         if z3.is_true(body):
             return z3.BoolVal(True)
-        return z3.ForAll([i], z3.Implies(z3.And(0 <= i, i < ln), body))
+        return forall([i], z3.Implies(z3.And(0 <= i, i < ln), body))
     return z3.BoolVal(True)
 
 
@@ -196,8 +196,14 @@ def psum(sev, env, f, n):
     ps = psum_fn(sev)
     t = ps(f, n)
     st = env.st
-    st.assume(z3.Implies(n <= 0, t == 0))
-    st.assume(z3.Implies(n > 0, t == ps(f, n - 1) + z3.Select(f, n - 1)))
+    u1 = z3.Implies(n <= 0, t == 0)
+    u2 = z3.Implies(n > 0, t == ps(f, n - 1) + z3.Select(f, n - 1))
+    if env.bound:
+        bs = list(env.bound)
+        st.assume(forall(bs, z3.And(u1, u2), patterns=[t]))
+    else:
+        st.assume(u1)
+        st.assume(u2)
     sev.ex.uses_psum = True
     return t
 
@@ -211,10 +217,10 @@ def psum_axioms(sev):
     n, i = z3.Ints('n!ps i!ps')
     ax = []
     # extensionality on a prefix
-    ax.append(z3.ForAll([f, g, n], z3.Implies(z3.ForAll([i], z3.Implies(z3.And(0 <= i, i < n), z3.Select(f, i) == z3.Select(g, i))),
+    ax.append(forall([f, g, n], z3.Implies(forall([i], z3.Implies(z3.And(0 <= i, i < n), z3.Select(f, i) == z3.Select(g, i))),
                                              ps(f, n) == ps(g, n)), patterns=[z3.MultiPattern(ps(f, n), ps(g, n))]))
     # non-negative terms give a non-negative, monotone sum
-    ax.append(z3.ForAll([f, n], z3.Implies(z3.ForAll([i], z3.Implies(z3.And(0 <= i, i < n), z3.Select(f, i) >= 0)), ps(f, n) >= 0),
+    ax.append(forall([f, n], z3.Implies(forall([i], z3.Implies(z3.And(0 <= i, i < n), z3.Select(f, i) >= 0)), ps(f, n) >= 0),
                         patterns=[ps(f, n)]))
     return ax
 
@@ -228,10 +234,10 @@ def _senders_term_array(sev, env, s, name, monleaf='Monetary', nameleaf='Name'):
     mon = z3.Select(env.st.heap(ex.aname(E, monleaf, 'Int')), arr)
     hi = env.st.heap('H|bigint||Int')
     i = z3.Int('i!sm')
-    body = z3.Select(hi, z3.Select(mon, off + i))
+    body = z3.Select(hi, z3.Select(mon, add0(off, i)))
     if name is not None:
         nm = z3.Select(env.st.heap(ex.aname(E, nameleaf, 'Str')), arr)
-        body = z3.If(z3.Select(nm, off + i) == name, body, z3.IntVal(0))
+        body = z3.If(z3.Select(nm, add0(off, i)) == name, body, z3.IntVal(0))
     return z3.Lambda([i], body)
 
 
@@ -258,7 +264,7 @@ def sf_sumMonNot(sev, env, args):
     nm = z3.Select(env.st.heap(ex.aname(E, 'Name', 'Str')), arr)
     hi = env.st.heap('H|bigint||Int')
     i = z3.Int('i!sm')
-    body = z3.If(z3.Select(nm, off + i) != sev.term(name), z3.Select(hi, z3.Select(mon, off + i)), z3.IntVal(0))
+    body = z3.If(z3.Select(nm, add0(off, i)) != sev.term(name), z3.Select(hi, z3.Select(mon, add0(off, i))), z3.IntVal(0))
     return psum(sev, env, z3.Lambda([i], body), sev.term(n))
 
 
@@ -272,7 +278,7 @@ def sf_sumVals(sev, env, args):
     refs = z3.Select(env.st.heap(ex.aname(E, '', 'Int')), arr)
     hi = env.st.heap('H|bigint||Int')
     i = z3.Int('i!sv')
-    return psum(sev, env, z3.Lambda([i], z3.Select(hi, z3.Select(refs, off + i))), sev.term(n))
+    return psum(sev, env, z3.Lambda([i], z3.Select(hi, z3.Select(refs, add0(off, i)))), sev.term(n))
 
 
 def sf_sumAmounts(sev, env, args):
